@@ -4,6 +4,7 @@
 //   fmcheck replay <clause> --args a,b,c [--kf file] <cut.so>...
 //   fmcheck merge <hashfile>...
 #include "registry.hpp"
+#include "meta.hpp"
 #include <rapidcheck.h>
 #include <chrono>
 #include <fstream>
@@ -83,6 +84,28 @@ int main(int argc, char** argv)
     if (ok) { printf("REPLAY %s args=%s: PASS\n", cl->id, args_json(a).c_str()); return 0; }
     printf("REPLAY %s args=%s: FAIL on %s: %s\n", cl->id, args_json(a).c_str(), ctx.fail_last.cfg.c_str(), ctx.fail_last.what.c_str());
     return 1;
+  }
+  if (cmd == "emit") {
+    // engine E4, step 1: generate in-domain cases for the constant-evaluation TUs and record the
+    // run-time value on which all loaded configurations (of the same sqrt group) agree
+    uint64_t seed = mix64(ctx.seed * 1000003ull + 0xce);
+    std::string params = strf("seed=%llu max_success=%llu max_size=100", (unsigned long long)seed, (unsigned long long)ctx.ncases);
+    setenv("RC_PARAMS", params.c_str(), 1);
+    FILE* fo = fopen(out.c_str(), "w"); if (!fo) { perror(out.c_str()); return 2; }
+    uint64_t emitted = 0, disagree = 0, trapped = 0, notce = 0;
+    auto g = rc::gen::resize(100, rc::gen::container<std::vector<uint64_t>>((std::size_t)cl->nwords, rc::gen::arbitrary<uint64_t>()));
+    rc::check("emit", [&]() {
+      std::vector<uint64_t> w = *g; Dec d(w.data(), w.size()); Args a = c08_decode(ctx, d);
+      int id = (int)a[0]; const char* fl = g_sigs[id].flags; if (!strcmp(fl, "RT")) { ++notce; return; }
+      const auto& sig = entry_args()[id]; for (size_t i = 0; i < sig.size(); ++i) if (!c08_arg_ok(id, i, sig[i], a[1 + i])) return;
+      bool sq = !strcmp(fl, "CESQ"); bool have = false, bad = false; int64_t ref = 0;
+      for (const Cut& c : ctx.cuts) { CallResult r = cut_call(c, id, a[1], a[2], a[3]); if (r.trap) { ++trapped; bad = true; break; } if (sq && !c.abacus) continue; if (!have) { have = true; ref = r.v; } else if (r.v != ref) { ++disagree; bad = true; break; } }
+      if (bad || !have) return;
+      fprintf(fo, "%s %" PRId64 " %" PRId64 " %" PRId64 " %" PRId64 "\n", g_sigs[id].name, a[1], a[2], a[3], ref); ++emitted;
+    });
+    fclose(fo);
+    printf("{\"emitted\": %" PRIu64 ", \"disagree\": %" PRIu64 ", \"trapped\": %" PRIu64 ", \"runtime_only_entries\": %" PRIu64 "}\n", emitted, disagree, trapped, notce);
+    return 0;
   }
   if (cmd != "run") return 2;
   auto t0 = std::chrono::steady_clock::now();
